@@ -889,5 +889,9 @@ V('C16', 'model-writes-poi-override-into-measurement', 'fire', 'C16.R7', 'Worksp
 V('C20', 'model-poi-through-a-local', 'silent', '', 'Workspace.model resolves the POI through a local variable',
   ('src/pyhf/workspace.py', "        config_kwargs.setdefault('poi_name', measurement['config']['poi'])\n", "        poi_name = config_kwargs.pop('poi_name', measurement['config']['poi'])\n"),
   ('src/pyhf/workspace.py', '        return Model(modelspec, **config_kwargs)\n', '        return Model(modelspec, poi_name=poi_name, **config_kwargs)\n'))
+V('C17', 'workspace-from-workspace-not-copied', 'fire', 'C17.R6', 'the Workspace constructor does not copy a specification that is already a Workspace',
+  ('src/pyhf/workspace.py', "        spec = copy.deepcopy(spec)\n        self.schema = config_kwargs.pop('schema', 'workspace.json')\n", "        if not isinstance(spec, Workspace):\n            spec = copy.deepcopy(spec)\n        self.schema = config_kwargs.pop('schema', 'workspace.json')\n"))
+V('C17', 'workspace-copy-through-a-local-name', 'silent', '', "the Workspace constructor's copy spelled with a differently named local",
+  ('src/pyhf/workspace.py', "        spec = copy.deepcopy(spec)\n        self.schema = config_kwargs.pop('schema', 'workspace.json')\n", "        document = copy.deepcopy(spec)\n        spec = document\n        self.schema = config_kwargs.pop('schema', 'workspace.json')\n"))
 V("C13", "code4-exponent-mask-strict", "fire", "C13.R3", "code 4 takes exponent 1 (a constant) exactly at |alpha| = alpha0",
   ("src/pyhf/interpolators/code4.py", "            exponents >= self.__alpha0, exponents, self.ones", "            exponents > self.__alpha0, exponents, self.ones"))
